@@ -69,6 +69,10 @@ func init() {
 			{Name: "check-reads-env", File: "stylecheck/st1003/st1003.go", Rule: "R4.5", KeyPart: "os.Getenv",
 				Old: "\tinitialisms := make(map[string]bool, len(il))", New: "\tif os.Getenv(\"ST1003_OFF\") != \"\" {\n\t\treturn nil, nil\n\t}\n\tinitialisms := make(map[string]bool, len(il))",
 				More: []Edit{{File: "stylecheck/st1003/st1003.go", Old: "import (\n", New: "import (\n\t\"os\"\n"}}},
+			{Name: "do-reads-env-unhashed", File: "lintcmd/runner/runner.go", Rule: "R4.5", KeyPart: "do calls os.Getenv",
+				Old: "\ta.hash = cache.ActionID(h.Sum())\n", New: "\ta.hash = cache.ActionID(h.Sum())\n\tif os.Getenv(\"STATICCHECK_FACTS_ONLY\") != \"\" {\n\t\ta.factsOnly = true\n\t}\n"},
+			{Name: "dep-facts-keyed-by-package-hash", File: "lintcmd/runner/runner.go", Rule: "R4.1", KeyPart: "packageAction.vetx",
+				Old: "\t\tfmt.Fprintf(h, \"vetout %q %x\\n\", dep.Package.PkgPath, vetxHash)\n", New: "\t\t_ = vetxHash\n\t\tfmt.Fprintf(h, \"vetout %q %x\\n\", dep.Package.PkgPath, dep.Package.Hash)\n"},
 			{Name: "new-result-only-on-miss", File: "lintcmd/runner/runner.go", Rule: "R4.6", KeyPart: "baseAction.failed",
 				Old: "\t\ta.skipped = result.skipped\n", New: "\t\ta.skipped = result.skipped\n\t\tif len(result.diags) > 10000 {\n\t\t\ta.failed = true\n\t\t}\n"},
 			{Name: "salt-not-set", File: "lintcmd/lint.go", Rule: "R4.7", KeyPart: "SetSalt",
@@ -115,20 +119,39 @@ func shortOwner(owner string) string {
 func hashedFields(fn *ssa.Function) (map[string]bool, []ssa.CallInstruction) {
 	fields := map[string]bool{}
 	var writes []ssa.CallInstruction
+	fieldOfVal := func(x ssa.Value) string {
+		var base ssa.Value
+		var idx int
+		switch x := x.(type) {
+		case *ssa.FieldAddr:
+			base, idx = x.X, x.Field
+		case *ssa.Field:
+			base, idx = x.X, x.Field
+		default:
+			return ""
+		}
+		if owner, f := FieldOf(base.Type(), idx); f != nil && owner != "" {
+			return shortOwner(owner) + "." + f.Name()
+		}
+		return ""
+	}
 	note := func(v ssa.Value) {
 		for x := range BackSlice(v, SliceOpts{ThroughCalls: true}) {
-			var base ssa.Value
-			var idx int
-			switch x := x.(type) {
-			case *ssa.FieldAddr:
-				base, idx = x.X, x.Field
-			case *ssa.Field:
-				base, idx = x.X, x.Field
-			default:
-				continue
+			if k := fieldOfVal(x); k != "" {
+				fields[k] = true
 			}
-			if owner, f := FieldOf(base.Type(), idx); f != nil && owner != "" {
-				fields[shortOwner(owner)+"."+f.Name()] = true
+			// "filehash:<field>": the content hash of the file the field names is written;
+			// "call:<api>#<n>": the result of that call is written.
+			if call, ok := x.(*ssa.Call); ok {
+				name := CalleeName(&call.Call)
+				fields["call:"+name+"@"+itoa(InstrIndex(call))+"/"+itoa(call.Block().Index)] = true
+				if name == cachePkg+".FileHash" && len(call.Call.Args) == 1 {
+					for y := range BackSlice(call.Call.Args[0], SliceOpts{}) {
+						if k := fieldOfVal(y); k != "" {
+							fields["filehash:"+k] = true
+						}
+					}
+				}
 			}
 		}
 	}
@@ -282,14 +305,16 @@ func runC04(c *Ctx) {
 		for _, k := range SortedKeys(reads) {
 			s := reads[k]
 			key := k + "::input-in-key"
-			if hashedDo[k] {
+			e, listed := table["input"][k]
+			if hashedDo[k] && !(listed && e.class == "filehash") {
 				c.Check(key, s.pos, true, "read on the miss path and written into the action key")
 				continue
 			}
-			e, listed := table["input"][k]
 			switch {
 			case listed && e.class == "exempt":
 				c.CheckTrivial(key, s.pos, true, "exempt: %s", e.reason)
+			case listed && e.class == "filehash":
+				c.Check(key, s.pos, hashedDo["filehash:"+k], "the content hash (cache.FileHash) of the file named by %s must be written into the key of the action that reads it (%s)", k, e.reason)
 			case listed && strings.HasPrefix(e.class, "covered-by "):
 				cover := strings.TrimPrefix(e.class, "covered-by ")
 				ok := hashedDo[cover]
@@ -535,7 +560,7 @@ func runC04(c *Ctx) {
 
 	c.Rule("R4.5", func() {
 		c.Floor("R4.5", 10)
-		roots := append([]*ssa.Function{unc}, analyzerRunFuncs(c)...)
+		roots := append([]*ssa.Function{do, unc}, analyzerRunFuncs(c)...)
 		if len(roots) < 100 {
 			c.Undecided("found only %d analyzer Run functions", len(roots)-1)
 		}
@@ -556,11 +581,50 @@ func runC04(c *Ctx) {
 					continue
 				}
 				k := fn.String() + " calls " + n
+				e, ok := table["ambient"][k]
+				if ok && e.class == "hashed" {
+					// every such call in this function must feed the key it computes
+					hf, _ := hashedFields(fn)
+					call, isCall := ci.(*ssa.Call)
+					fed := isCall && hf["call:"+n+"@"+itoa(InstrIndex(call))+"/"+itoa(call.Block().Index)]
+					nth := 0
+					for seen[k+"#"+itoa(nth)] {
+						nth++
+					}
+					seen[k+"#"+itoa(nth)] = true
+					c.Check(k+"::result-is-hashed#"+itoa(nth), ci.Pos(), fed, "the value read from the environment here must be written into the cache key computed by this function (%s)", e.reason)
+					continue
+				}
+				if ok && strings.HasPrefix(e.class, "filehash ") {
+					field := strings.TrimPrefix(e.class, "filehash ")
+					fromField := false
+					for y := range BackSlice(ci.Common().Args[0], SliceOpts{}) {
+						var base ssa.Value
+						var idx int
+						switch y := y.(type) {
+						case *ssa.FieldAddr:
+							base, idx = y.X, y.Field
+						case *ssa.Field:
+							base, idx = y.X, y.Field
+						default:
+							continue
+						}
+						if owner, f := FieldOf(base.Type(), idx); f != nil && shortOwner(owner)+"."+f.Name() == field {
+							fromField = true
+						}
+					}
+					nth := 0
+					for seen[k+"#"+itoa(nth)] {
+						nth++
+					}
+					seen[k+"#"+itoa(nth)] = true
+					c.Check(k+"::file-content-is-hashed#"+itoa(nth), ci.Pos(), fromField && hashedDo["filehash:"+field], "the file opened here must be the one named by %s (%v), whose content hash (cache.FileHash) is written into the reader's action key (%v): %s", field, fromField, hashedDo["filehash:"+field], e.reason)
+					continue
+				}
 				if seen[k] {
 					continue
 				}
 				seen[k] = true
-				e, ok := table["ambient"][k]
 				if ok {
 					c.CheckTrivial(k, ci.Pos(), true, "listed: %s", e.reason)
 				} else {
